@@ -6,11 +6,15 @@
         lru_correct, lru_correct_upto, run_eq_pure_of_invalidate, evict_irrelevant, lru_capacity,
         sys_pure_caches_correct, sys_capacity, dtype_create_value_pure
     "on option values that were in force earlier"
-        cached_eq_pure, run_eq_pure_of_invalidate / sys_all_pure_of_invalidate (the repaired shape: ALL histories),
-        run_eq_pure_partial / sys_all_pure_partial (the code as pinned: histories outside the regions),
-        stale_after_mxfp_overflow_change, stale_after_lsb0_change, staleness_depends_on_eviction (the known deviations)
+        head_setters_invalidate (generated obligation: in the working tree assigning lsb0 / mxfp_overflow leaves no
+        stale string behind), cached_eq_pure, run_eq_pure_of_invalidate, str_to_bitstore_pure_when_invalidating,
+        sys_all_pure_of_invalidate, head_all_pure (the model of the working tree: ALL histories, full strength);
+        documentation of what the repair (commit a428504) removed: stale_after_mxfp_overflow_change,
+        stale_after_lsb0_change, staleness_depends_on_eviction, sys_stale_witnesses (WITHOUT invalidation purity
+        fails) and run_eq_pure_partial / sys_all_pure_partial (what still holds without it)
     "Setting an option back to an earlier value restores the earlier behaviour exactly"
-        set_back_restores, option_restore, option_restore_set_back, option_restore_partial,
+        set_back_restores, option_restore, option_restore_set_back, str_to_bitstore_option_restore,
+        sys_option_restore, head_option_restore, option_restore_partial,
         set_lsb0_tables_inverse, bindings_follow_lsb0, method_dispatch_pure_gen
   Every theorem is quantified over ALL histories (lists of calls, cache_clears and option assignments), all
   capacities and all wrapped functions satisfying the stated hypothesis; no size bound anywhere.
@@ -109,10 +113,10 @@ theorem option_restore_set_back (m : Cfg α κ ν) (hk : KeyDetermines m) (hr : 
     simp only [optsAfter, List.foldl_append, List.foldl_cons, List.foldl_nil, optsStep]
     exact set_back_restores _ n v)
 
-/-- `…_partial` for the code as pinned (no setter clears anything, `m.inval` arbitrary): ALG = SPEC on every history
-    OUTSIDE the region — no key is used under two option settings for which its computation differs.
-    Full statement (false on the pinned tree, see the witnesses below):
-      `∀ ops, (run m ⟨o, []⟩ ops).2 = pureRun m.f o ops`. -/
+/-- Without any assumption on the setters (`m.inval` arbitrary, in particular nothing clears anything): ALG = SPEC on
+    every history OUTSIDE the region — no key is used under two option settings for which its computation differs.
+    The unrestricted statement `∀ ops, (run m ⟨o, []⟩ ops).2 = pureRun m.f o ops` needs `ReadsOnlyInvalidating`
+    (`run_eq_pure_of_invalidate`); without it it is false (witnesses below). -/
 theorem run_eq_pure_partial [DecidableEq ν] (m : Cfg α κ ν) (hk : KeyDetermines m) (o : Opts) (ops : List (Op α))
     (h : reuse_after_option_change m o ops = false) :
     (run m ⟨o, []⟩ ops).2 = pureRun m.f o ops :=
@@ -129,7 +133,8 @@ theorem option_restore_partial [DecidableEq ν] (m : Cfg α κ ν) (hk : KeyDete
 
 end generic
 
-/-! ### the known deviations of the pinned tree (`str_to_bitstore` keyed on the string alone, setters clear nothing) -/
+/-! ### what happens WITHOUT invalidation (`str_to_bitstore` keyed on the string alone, setters clear nothing):
+    the two deviations of the tree before commit a428504, kept as documentation of why the setters must clear -/
 
 def kMxfp : Call := ⟨"e4m3mxfp=1000", false, true, false⟩
 def kUe : Call := ⟨"ue=3", true, false, false⟩
@@ -234,15 +239,16 @@ theorem sys_all_pure_of_invalidate (cfg : SysCfg) (hs : SameKeys cfg)
     (ops : List SysOp) : ∀ out ∈ (sysRun cfg (Sys.init cfg) ops).2, out.pure cfg = true :=
   sys_pure_inval cfg hs hl hm ops
 
-/-- `…_partial` for the code as pinned (`cfg.inval` arbitrary, in particular nothing clears anything): every
-    observation is pure on every history outside the two regions.
-    Full statement (false on the pinned tree): the same without the two region hypotheses. -/
+/-- Without any assumption on the setters (`cfg.inval` arbitrary, in particular nothing clears anything): every
+    observation is pure on every history outside the two regions.  (With invalidating setters the region hypotheses
+    are not needed: `sys_all_pure_of_invalidate`.) -/
 theorem sys_all_pure_partial (cfg : SysCfg) (hs : SameKeys cfg) (ops : List SysOp)
     (h₁ : reuse_after_lsb0_change ops = false) (h₂ : reuse_after_mxfp_overflow_change ops = false) :
     ∀ out ∈ (sysRun cfg (Sys.init cfg) ops).2, out.pure cfg = true :=
   sys_pure_partial cfg hs ops h₁ h₂
 
-/-- Inside the regions the system really deviates (the witnesses of the two findings, in system form). -/
+/-- … and inside the regions a system whose setters clear nothing really deviates (the two deviations that commit
+    a428504 repaired, in system form). -/
 theorem sys_stale_witnesses :
     let cfg : SysCfg := { cap := fun _ => 256, inval := fun _ _ => false, tblLsb0 := [], tblMsb0 := [] }
     let h₁ := [SysOp.call .strToBitstore kMxfp, .setOpt .mxfp true, .call .strToBitstore kMxfp]
@@ -252,6 +258,55 @@ theorem sys_stale_witnesses :
     ((sysRun cfg (Sys.init cfg) h₂).2.map (SysOut.pure cfg)) = [true, true, false] ∧
     reuse_after_lsb0_change h₂ = true ∧ reuse_after_mxfp_overflow_change h₂ = false := by
   decide
+
+/-! ### the model of the working tree (setters as extracted: `Gen.staleAfterMxfp`, `Gen.staleAfterLsb0`) -/
+
+/-- Generated obligation: evaluated on the working tree, a string parsed before `options.mxfp_overflow = …` /
+    `options.lsb0 = …` is not served afterwards (the setters clear `str_to_bitstore`, commit a428504). -/
+theorem head_setters_invalidate : Gen.staleAfterMxfp = false ∧ Gen.staleAfterLsb0 = false := by
+  decide
+
+/-- Full strength for the configuration the driver runs (`genCfg`: capacities, tables and setter behaviour as
+    extracted from the working tree): EVERY observation of EVERY history is pure — all eight caches, every order of
+    option assignments, every interleaving with cache_clears, method dispatch included. -/
+theorem head_all_pure (cfg : SysCfg) (h : genCfg = some cfg) (ops : List SysOp) :
+    ∀ out ∈ (sysRun cfg (Sys.init cfg) ops).2, out.pure cfg = true := by
+  have hc := genCfg_spec cfg h
+  exact sys_pure_inval cfg (gen_same_keys cfg hc.1 hc.2.1)
+    (by rw [hc.2.2.1, head_setters_invalidate.2]; rfl) (by rw [hc.2.2.2, head_setters_invalidate.1]; rfl) ops
+
+/-- `str_to_bitstore` with invalidating setters: two histories ending in the same option state agree on every call. -/
+theorem str_to_bitstore_option_restore (cap : Nat) (ops₁ ops₂ : List (Op Call)) (a : Call)
+    (h : optsAfter Opts.init ops₁ = optsAfter Opts.init ops₂) :
+    (step (strCfg cap true) (run (strCfg cap true) St.init ops₁).1 (.call a)).2
+      = (step (strCfg cap true) (run (strCfg cap true) St.init ops₂).1 (.call a)).2 :=
+  restore (strCfg cap true) (strCfg_keyDetermines cap true) (strCfg_roi cap) ops₁ ops₂ a h
+
+/-- `option_restore` for the whole system with invalidating setters: what a call of ANY of the eight memoised
+    functions returns is a function of the current option state and the arguments — never of the history. -/
+theorem sys_option_restore (cfg : SysCfg)
+    (hl : cfg.inval .strToBitstore .lsb0 = true) (hm : cfg.inval .strToBitstore .mxfp = true)
+    (ops₁ ops₂ : List SysOp) (cid : CacheId) (a : Call)
+    (h : sysOptsAfter Opts.init ops₁ = sysOptsAfter Opts.init ops₂) :
+    (sysStep cfg (sysRun cfg (Sys.init cfg) ops₁).1 (.call cid a)).2
+      = (sysStep cfg (sysRun cfg (Sys.init cfg) ops₂).1 (.call cid a)).2 := by
+  have e : (Sys.init cfg).opts = Opts.init := rfl
+  rw [sys_call_fresh cfg hl hm ops₁ cid a, sys_call_fresh cfg hl hm ops₂ cid a, sysRun_opts, sysRun_opts, e, h]
+
+/-- … for the configuration of the working tree. -/
+theorem head_option_restore (cfg : SysCfg) (hg : genCfg = some cfg) (ops₁ ops₂ : List SysOp) (cid : CacheId) (a : Call)
+    (h : sysOptsAfter Opts.init ops₁ = sysOptsAfter Opts.init ops₂) :
+    (sysStep cfg (sysRun cfg (Sys.init cfg) ops₁).1 (.call cid a)).2
+      = (sysStep cfg (sysRun cfg (Sys.init cfg) ops₂).1 (.call cid a)).2 := by
+  have hc := genCfg_spec cfg hg
+  exact sys_option_restore cfg (by rw [hc.2.2.1, head_setters_invalidate.2]; rfl)
+    (by rw [hc.2.2.2, head_setters_invalidate.1]; rfl) ops₁ ops₂ cid a h
+
+/-- In particular: `options.n = v` followed by `options.n = <old value>` changes no later result. -/
+theorem sys_set_back_restores (o : Opts) (ops : List SysOp) (n : OptName) (v : Bool) :
+    sysOptsAfter o (ops ++ [.setOpt n v, .setOpt n ((sysOptsAfter o ops).get n)]) = sysOptsAfter o ops := by
+  simp only [sysOptsAfter, List.foldl_append, List.foldl_cons, List.foldl_nil]
+  exact set_back_restores _ n v
 
 /-! ### `Dtype._create`: keys compared with `==` -/
 
@@ -305,6 +360,11 @@ example :
 example : SameKeys { cap := fun _ => 256, inval := fun _ _ => false, tblLsb0 := Gen.lsb0Table, tblMsb0 := Gen.msb0Table } ∧
     Gen.lsb0Table ≠ Gen.msb0Table ∧ Gen.lsb0Table.length = Gen.msb0Table.length ∧ 0 < Gen.lsb0Table.length :=
   ⟨gen_same_keys _ rfl rfl, by decide, by decide, by decide⟩
+
+/-- The configuration of the working tree exists (all eight capacities were extracted), with capacity 256 for
+    `str_to_bitstore`, so `head_all_pure` / `head_option_restore` are not vacuous. -/
+example : ∃ cfg, genCfg = some cfg ∧ cfg.cap .strToBitstore = 256 ∧ cfg.inval .strToBitstore .lsb0 = true := by
+  refine ⟨_, rfl, by decide, by decide⟩
 
 /-- The Dtype hypothesis of `lru_correct_upto` is used with a relation that is not equality. -/
 example : (⟨"uint", some 8, some ⟨2, 1, .int⟩⟩ : DtypeArg).valueEq ⟨"uint", some 8, some ⟨2, 1, .bool⟩⟩ := by
